@@ -46,6 +46,11 @@ WANTED = [
     ("src/buint/checked.rs", None, "div_rem_digit", "div_rem_digit"),
     # ---- second batch (tools/LOOPS_TRANSLATOR.md, "second batch")
     ("src/buint/mod.rs", None, "from_digit", "from_digit"),
+    ("src/buint/mod.rs", None, "digits", "digits"),
+    ("src/buint/mod.rs", None, "from_digits", "from_digits"),
+    ("src/buint/mod.rs", None, "bit", "bit"),
+    ("src/buint/mod.rs", None, "set_bit", "set_bit"),
+    ("src/buint/mod.rs", None, "power_of_two", "power_of_two"),
     ("src/bint/overflowing.rs", None, "overflowing_add", "I_overflowing_add"),
     ("src/bint/overflowing.rs", None, "overflowing_sub", "I_overflowing_sub"),
     ("src/bint/overflowing.rs", None, "overflowing_neg", "I_overflowing_neg"),
@@ -80,7 +85,8 @@ GROUPS = {
     "C05": ["unchecked_shl_internal", "unchecked_shr_pad_internal", "rotate_digits_left", "unchecked_rotate_left", "swap_bytes",
             "reverse_bits"],
     "C06": ["bitand", "bitor", "bitxor", "not_", "eq_", "cmp", "count_ones", "count_zeros", "leading_zeros", "trailing_zeros",
-            "leading_ones", "trailing_ones", "is_power_of_two", "is_zero", "is_one", "from_digit"],
+            "leading_ones", "trailing_ones", "is_power_of_two", "is_zero", "is_one", "from_digit", "digits", "from_digits", "bit",
+            "set_bit", "power_of_two"],
     "C08": ["overflowing_pow", "checked_pow", "wrapping_pow"],
 }
 LAST_MSG = [""]
@@ -383,7 +389,8 @@ class LP(_dig.P):
         if v in ("!", "&", "-", "*"):
             self.eat()
             if v == "&" and self.peek() == "mut":
-                die("&mut is not supported")
+                self.eat("mut")
+                return ["refmut", self.unary()]
             return ["un", v, self.unary()]
         return self.postfix()
 
@@ -462,6 +469,11 @@ class LP(_dig.P):
                 segs.append(self.ident())
             if self.peek() == "(":
                 return ["pcall", segs, self.args()]
+            if segs == ["Self"] and self.peek() == "{" and self.peek(1) in ("digits", "bits") and self.peek(2) == "}":
+                self.eat("{")                          # `Self { digits }` / `Self { bits }`: the struct around one array
+                f = self.eat()
+                self.eat("}")
+                return ["struct", f, ["var", f]]
             if len(segs) == 1:
                 return ["var", segs[0]]
             return ["path", segs]
@@ -587,6 +599,9 @@ class Gen:
             self.tvs[id(node)] = (node, TVar())          # keep the node alive: ids stay unique
         return self.tvs[id(node)][1]
 
+    def is_ref(self, t):
+        return isinstance(t, tuple) and len(t) == 3 and t[0] == "ref"
+
     def tv_any(self, node):
         if id(node) not in self.tvs:
             self.tvs[id(node)] = (node, TVar(any=True))
@@ -647,10 +662,18 @@ class Gen:
             op = e[1]
             if op == "&":
                 return self.ex(e[2], env)
+            if op == "*":
+                if e[2][0] == "var" and e[2][1] in env and self.is_ref(env[e[2][1]].ty):
+                    _, arr, ix = env[e[2][1]].ty
+                    x = self.tmp()
+                    return ["%s <- arr_get %s %s ;;" % (x, arr, ix)], x, "Digit"
+                self.die("unsupported dereference " + str(e[2]))
             p, v, t = self.ex(e[2], env)
             if op == "!":
                 if rs(t) == "bool":
                     return p, "(negb %s)" % v, "bool"
+                if isinstance(rs(t), TVar) and not self.final:
+                    return p, "0", t                   # type not yet known (first pass): decided by the context
                 if self.need(t, "operand of !") == "Digit":
                     return p, "(u_not w %s)" % v, "Digit"
                 self.die("unsupported operand type for !: " + show(t))
@@ -691,6 +714,15 @@ class Gen:
             return pc, "(if %s then %s else %s)" % (vc, va, vb), t
         if k == "blockx":
             return self.value_block(e[1], env)
+        if k == "struct":
+            p, v, t = self.ex(e[2], env)
+            want, got = {"buint": ("digits", "digits"), "bint": ("bits", "buint")}[self.selfty]
+            if e[1] != want:
+                self.die("struct literal Self { %s }" % e[1])
+            unify(t, got, "field of the struct literal")
+            return p, v, self.selfty
+        if k == "refmut":
+            self.die("`&mut` is only supported as `let d = &mut x.digits[e];`")
         if k == "mcall":
             return self.mcall(e, env)
         if k == "pcall":
@@ -881,6 +913,8 @@ class Gen:
         if op in ("<<", ">>"):
             if not is_int(tb):
                 self.die("shift amount of type " + show(tb))
+            if isinstance(rs(ta), TVar) and not self.final:
+                return pre, "0", ta                    # type not yet known (first pass): decided by the context
             t = self.need(ta, "left operand of " + op)
             if t == "Digit":
                 x = self.tmp()
@@ -915,6 +949,8 @@ class Gen:
     # ctx: {"loop": None | [state names], "protected": set of names that may not be re-declared here}
     def finish(self, ctx, env):
         if ctx["loop"] is None:
+            if self.sigs[self.fname]["mutref"]:
+                return "Done self"                     # fn f(&mut self, ..): the result is the updated *self
             self.die("function body falls off its end without a value")
         return "Done (Continue %s)" % self.tup(ctx["loop"])
 
@@ -979,6 +1015,21 @@ class Gen:
                 return pad + "let %s := 0 in (* declared without initialiser *)\n" % name + self.stmts(rest, env, ctx, ind)
             if init[0] == "match":
                 return self.match_stmt(init, lambda body: ["let", pat, ty, body], rest, env, ctx, ind)
+            if init[0] == "refmut":
+                # `let d = &mut x.digits[e];`: d names the place x.digits[e].  The index is evaluated and bounds-checked
+                # here; `*d` reads the place, `*d = v` writes it.  (The borrow checker guarantees that x is not accessed
+                # otherwise while d is live.)
+                if pat[0] != "pid" or pat[1][1] or ty is not None or init[1][0] != "index":
+                    self.die("`&mut` is only supported as `let d = &mut x.digits[e];`")
+                arr = self.array_of(init[1][1], env)
+                if not env[arr].mut:
+                    self.die("&mut borrow of a digit of immutable variable " + arr)
+                p, v, t = self.ex(init[1][2], env)
+                unify(t, "usize", "array index")
+                ix, chk = self.tmp(), self.tmp()
+                self.declare(env, pat[1][0], ("ref", arr, ix), False, ctx)
+                return (self.lines(p + ["let %s := %s in" % (ix, v), "%s <- arr_get %s %s ;;" % (chk, arr, ix)], pad) + "\n"
+                        + self.stmts(rest, env, ctx, ind))
             p, v, t = self.ex(init, env)
             if ty is not None:
                 t = unify(t, ty, "let with type annotation")
@@ -1014,6 +1065,13 @@ class Gen:
                     p = p[:-1] + [name + p[-1][len(v):]]
                     return self.lines(p, pad) + "\n" + self.stmts(rest, env, ctx, ind)
                 return self.lines(p + ["let %s := %s in" % (name, v)], pad) + "\n" + self.stmts(rest, env, ctx, ind)
+            if lhs[0] == "un" and lhs[1] == "*" and lhs[2][0] == "var" and lhs[2][1] in env and self.is_ref(env[lhs[2][1]].ty):
+                _, arr, ix = env[lhs[2][1]].ty
+                if op != "=":
+                    self.die("compound assignment through a reference: not supported")
+                p, v, t = self.ex(rhs, env)
+                unify(t, "Digit", "digit assignment")
+                return self.lines(p + ["%s <- arr_set %s %s %s ;;" % (arr, arr, ix, v)], pad) + "\n" + self.stmts(rest, env, ctx, ind)
             if lhs[0] == "index":
                 arr = self.array_of(lhs[1], env)
                 if not env[arr].mut:
@@ -1177,6 +1235,8 @@ class Gen:
                 lhs = s[1]
                 if lhs[0] == "var":
                     out.add(lhs[1])
+                elif lhs[0] == "un" and lhs[1] == "*":
+                    self.die("assignment through a reference inside a loop: not supported")
                 elif lhs[0] == "index":
                     e = lhs[1]
                     while e[0] in ("un", "field"):
@@ -1227,10 +1287,15 @@ def find_fn(src, anchor, name, path):
         d += {"(": 1, ")": -1}.get(src[j], 0)
         j += 1
     params = src[i:j - 1]
-    rm = re.match(r"\s*->\s*([^{;]+)\{", src[j:])
-    if not rm:
+    rm = re.match(r"\s*->\s*((?:\[[^\]{}]*\]|[^{;\[])+)\{", src[j:])
+    if rm:
+        ret = rm.group(1).strip()
+        k = j + rm.end() - 1
+    elif re.match(r"\s*\{", src[j:]):                    # no `->`: the unit type
+        ret = None
+        k = j + re.match(r"\s*\{", src[j:]).end() - 1
+    else:
         die("%s: no return type / body for fn %s" % (path, name))
-    k = j + rm.end() - 1
     d, e = 0, k
     while True:
         if e >= len(src):
@@ -1239,11 +1304,12 @@ def find_fn(src, anchor, name, path):
         e += 1
         if d == 0:
             break
-    return fm.group(1), params, rm.group(1).strip(), src[k:e]
+    return fm.group(1), params, ret, src[k:e]
 
 
 def parse_sig(name, generics, params, ret, selfty="buint"):
-    sig = {"self": False, "params": [], "generics": [], "mut": set(), "selfty": selfty, "rust": name, "callable": True}
+    sig = {"self": False, "params": [], "generics": [], "mut": set(), "selfty": selfty, "rust": name, "callable": True,
+           "mutref": False}
     if generics:
         for g in generics.strip()[1:-1].split(","):
             m = re.match(r"^\s*const\s+(\w+)\s*:\s*bool\s*$", g)
@@ -1253,12 +1319,17 @@ def parse_sig(name, generics, params, ret, selfty="buint"):
     t = LP(tokenize(params), selfty)
     first = True
     while t.peek() is not None:
-        if first and (t.peek() == "self" or (t.peek() in ("&", "mut") and t.peek(1) == "self")):
+        if first and (t.peek() == "self" or (t.peek() in ("&", "mut") and t.peek(1) == "self")
+                      or (t.peek() == "&" and t.peek(1) == "mut" and t.peek(2) == "self")):
             if t.peek() == "mut":                       # `mut self`: by value, the local copy is assigned
                 t.eat("mut")
                 sig["mut"].add("self")
             elif t.peek() == "&":
                 t.eat("&")
+                if t.peek() == "mut":                   # `&mut self`: the caller's value is updated: the Gallina function
+                    t.eat("mut")                        # returns the new value of *self (only with the unit return type)
+                    sig["mut"].add("self")
+                    sig["mutref"] = True
             t.eat("self")
             sig["self"] = True
         else:
@@ -1276,6 +1347,14 @@ def parse_sig(name, generics, params, ret, selfty="buint"):
             t.eat(",")
         elif t.peek() is not None:
             die("fn %s: cannot parse the parameter list" % name)
+    if ret is None:
+        if not sig["mutref"]:
+            die("fn %s: no return type (only supported for `&mut self` functions)" % name)
+        sig["ret"] = selfty
+        sig["callable"] = False                        # calls of `&mut self` functions are not in the subset
+        return sig
+    if sig["mutref"]:
+        die("fn %s: `&mut self` with a return value is not supported" % name)
     r = LP(tokenize(ret), selfty)
     sig["ret"] = r.type_()
     if r.peek() is not None:
